@@ -125,7 +125,7 @@ fn strat(s: u64) -> GenerationStrategy {
 /// the global order of the items (mirror of the generator the loader builds: seed + epoch)
 fn global_order(c: &Cfg) -> Result<Vec<(u64, u64)>, String> {
     let gens = files(&c.lens, c.bad).iter().map(train_data_generator_from_jsonl).collect::<anyhow::Result<Vec<_>>>().map_err(|e| e.to_string())?;
-    let g = MultiTrainDataGenerator::new(gens, strat(c.strategy), Some(c.seed + c.epoch)).map_err(|e| e.to_string())?;
+    let g = MultiTrainDataGenerator::new(gens, strat(c.strategy), Some(c.seed.wrapping_add(c.epoch))).map_err(|e| e.to_string())?;
     let mut out = vec![];
     // every source is read in order, so the k-th item tagged with a source is its k-th line (also for lines that fail
     // to parse, which arrive as Err)
@@ -331,7 +331,7 @@ pub fn exec(op: &str, a: &[u64]) -> Result<Outcome, String> {
     // fast_forward(k): the code skips k LINES (global indices), the property speaks of the first k ITEMS of the
     // uninterrupted stream.  The two differ exactly when a line that does not parse lies among the skipped ones
     // (known finding F17); everything else is checked with the line semantics, which is what the code implements.
-    let first = c.skip + c.ff;
+    let first = c.skip.saturating_add(c.ff);
     let ff_skips_invalid = invalid_req.iter().any(|&i| i >= c.skip && i < first && c.limit.map(|l| i < l).unwrap_or(true));
     let want_lines: Vec<u64> = ref_order.iter().filter(|&&gi| gi >= first).copied().collect();
     let want_items: Vec<u64> = ref_order.iter().skip(c.ff as usize).copied().collect();
@@ -426,8 +426,17 @@ fn rand_cfg(ctx: &mut Ctx) -> Cfg {
 pub fn run_c08(ctx: &mut Ctx) {
     ctx.case_timeout = std::time::Duration::from_secs(300);
     let n = ctx.budget(40, 1500);
-    for _ in 0..n {
-        let c = rand_cfg(ctx);
+    for i in 0..n {
+        let mut c = rand_cfg(ctx);
+        // values at the top of the integer range: a seed near u64::MAX (seed + epoch, seed + item index), "skip /
+        // fast-forward everything", an explicit "no limit"
+        match i % 10 {
+            3 => c.seed = u64::MAX - ctx.rng.random_range(0..3u64),
+            5 => c.skip = u64::MAX - ctx.rng.random_range(0..2u64),
+            7 => c.ff = u64::MAX - ctx.rng.random_range(0..2u64),
+            9 => c.limit = Some(u64::MAX),
+            _ => {}
+        }
         ctx.case("select", &enc_select(&c));
         // the batch sequence of this loader, replayed by the C06 model: items in delivery order of the pipeline
         // (= selection order), sizes = item sizes, same batching configuration and seed
@@ -435,7 +444,7 @@ pub fn run_c08(ctx: &mut Ctx) {
             let plain = Cfg { sort: false, shuffle: false, ..c.clone() };
             if let (Ok(stream), Ok(run)) = (run_loader(&plain, &order), run_loader(&c, &order)) {
                 let items: Vec<crate::props::batch::It> = stream.batches.iter().flatten().map(|x| crate::props::batch::It { id: x.0, size: x.1 }).collect();
-                let mut v = vec![c.sort as u64, c.shuffle as u64, c.padded as u64, c.prefetch, c.batch_limit, c.seed + c.epoch];
+                let mut v = vec![c.sort as u64, c.shuffle as u64, c.padded as u64, c.prefetch, c.batch_limit, c.seed.wrapping_add(c.epoch)];
                 v.push(items.len() as u64);
                 for it in &items {
                     v.push(it.id);
